@@ -231,6 +231,15 @@ class Analyzer:
                 if g is not None and g.get("body"):
                     b_ = peel_block(g["body"])
                     return self.val(b_, {"$tsub": env.get("$tsub"), "$concrete": True, "$guards": {}, "$ver": env.get("$ver")})
+            if k == "Const" and not n.get("targs"):
+                # a named constant whose initialiser is a literal (`const MAGIC: &[u8; 9] = b"savefile\0";`)
+                g = self.facts.fns.get(n.get("id"))
+                if g is not None and g.get("body"):
+                    b_ = peel_block(g["body"])
+                    while isinstance(b_, dict) and b_.get("k") in ("Ref", "Deref", "Coerce"):
+                        b_ = peel_block(b_["e"])
+                    if isinstance(b_, dict) and b_.get("k") == "Lit":
+                        return self.val(b_, {})
             return None
         if k == "Index":
             b = self.val(n["e"], env)
@@ -344,6 +353,13 @@ class Analyzer:
                 return ("some", r_) if m_.group(1) == "checked" else r_
             if c in ("core::intrinsics::transmute", "std::mem::transmute", "core::mem::transmute") and n["args"]:
                 return self.val(n["args"][0], env)
+            if c in ("core::option::Option::ok_or", "core::option::Option::ok_or_else") and n["args"]:
+                # `a.checked_mul(b).ok_or(E)?` is the `let Some(x) = a.checked_mul(b) else { return Err(E) }` idiom
+                v_ = self.val(n["args"][0], env)
+                return ("ok", v_[1]) if v_ is not None and v_[0] == "some" else None
+            if c in ("core::result::Result::map_err", "core::result::Result::or_else") and n["args"]:
+                v_ = self.val(n["args"][0], env)
+                return v_ if v_ is not None and v_[0] == "ok" else None
             return None
         return None
 
@@ -1031,6 +1047,33 @@ class Analyzer:
                 return then(acc, self.closure_events(cl, env)), None
             if argvals and argvals[0] is not None and argvals[0][0] == "closure":
                 return then(acc, self.closure_events({"id": argvals[0][1]}, env)), None
+        # short-circuiting iteration: `iter.try_for_each(|x| { a(x)?; b(x) })` runs the closure's Ok path any number of times and stops
+        # at the first Err, which becomes the Err of the whole call
+        if c and c.rsplit("::", 1)[-1] in ("try_for_each", "try_fold") and n["args"]:
+            cl = peel(n["args"][-1])
+            cf = self.facts.fns.get(cl.get("id")) if isinstance(cl, dict) and cl.get("k") == "Closure" else None
+            if cf is not None and is_result_ty(cf.get("ret") or (cf.get("body") or {}).get("ty")):
+                first = Ex()
+                for a in n["args"][:-1]:
+                    e_, _ = self.expr(a, env)
+                    first = then(first, e_)
+                env2 = dict(env)
+                for p_ in cf["params"]:
+                    if p_.get("pat"):
+                        self.bind(p_["pat"], None, env2)
+                self.stack.append(cl["id"])
+                try:
+                    ce, _ = self.expr(cf["body"], env2)
+                finally:
+                    self.stack.pop()
+                ok_l = alt(ce.n, ce.nok, ce.rok)
+                err_l = alt(ce.n, ce.nerr, ce.rerr)
+                x = Ex()
+                x.n = VOID
+                x.nok = star(ok_l)
+                x.nerr = seq(star(ok_l), err_l)
+                x.div = seq(star(ok_l), ce.div)
+                return then(then(acc, first), x), None
         # unknown callee: closures passed to it may run any number of times
         extra = Ex()
         for a in n["args"]:
